@@ -10,7 +10,15 @@ qp.equal / __hash__.  Trace_Equality.tla recomputes the exact matrix of both obj
 Z[zeta_16][1/2] from the reference gate table (linear combinations of gate products) and validates every record:
 reflexive; symmetric; identical data => equal and equal hashes; equal => same linear map (and same measurement kind /
 wires); triples all equal.  equal(a,b) with different hashes for NON-identical data, attributes ignored by equal, and the
-agreement of the structural model (EqModel / KeyModel) with the code are reported as evidence only."""
+agreement of the structural model (EqModel / KeyModel) with the code are reported as evidence only.
+
+REPLAY -> TRACE (histories).  EqHistoryGen.tla models objects as immutable values under the public calls hash / copy /
+deepcopy / map_wires and enumerates every call history up to a bound together with the data each object is expected to
+hold at its end.  The driver replays the histories on real objects (all histories on the first base of every
+implementation family = distinct __hash__ / map_wires / copy implementations, one round-robin history on every other
+base) and records, for every object of the final store, the pair (object, fresh reconstruction from the expected data)
+as identical data, and the pairs (original, derived object) as identical / mutated according to the expected data;
+Trace_Equality.tla decides them with the same clauses."""
 import copy
 import json
 import random
@@ -81,6 +89,20 @@ def positions(d):
         return positions(d["op"])
     s = set(d["w"]) | set(d["w1"])
     return s | (positions(d["obs"]) if d["obs"] else set())
+
+
+def relabel(d, f):
+    """description with every wire position j <= len(f) replaced by f[j-1] (the data a map_wires result must hold)."""
+    mp = lambda ws: [f[j - 1] if j <= len(f) else j for j in ws]      # noqa: E731
+    t = d["t"]
+    if t == "gate":
+        nd = dict(d, r=dict(json.loads(json.dumps(d["r"])), w=mp(d["r"]["w"])))
+        return nd
+    if t in ("prod", "sum", "lincomb"):
+        return dict(d, ops=[relabel(o, f) for o in d["ops"]])
+    if t == "sprod":
+        return dict(d, op=relabel(d["op"], f))
+    return dict(d, w=mp(d["w"]), w1=mp(d["w1"]), obs=relabel(d["obs"], f) if d["obs"] else None)
 
 
 def scalar(c):
@@ -223,6 +245,18 @@ def _mut_gate(d, n):
             x[0], x[1], w[0], w[1] = x[1], x[0], w[1], w[0]
             new("control-reorder", x=x, w=w)
     ctrls = [i for i, md in enumerate(r["mods"]) if md["t"] == "ctrl"]
+    # >= 3 control wires: every cyclic re-listing of the control wires combined with every cyclic shift of the control
+    # values (same control dictionary iff the two shifts agree; TLC decides through the denotation)
+    rot = lambda l, k: l[k:3] + l[:k] + l[3:]       # noqa: E731
+    cyc = [(a_, b_) for a_ in range(3) for b_ in range(3) if (a_, b_) != (0, 0)]
+    if r["g"] == "MultiControlledX" and len(r["x"]) >= 3 and not r["mods"]:
+        for a_, b_ in cyc:
+            new(f"control-cycle[{a_},{b_}]", w=rot(list(r["w"]), a_), x=rot(list(r["x"]), b_))
+    if len(ctrls) == 1 and len(r["mods"][ctrls[0]]["cv"]) >= 3:
+        for a_, b_ in cyc:
+            mods = json.loads(json.dumps(r["mods"]))
+            mods[ctrls[0]]["cv"] = rot(mods[ctrls[0]]["cv"], b_)
+            new(f"control-cycle[{a_},{b_}]", mods=mods, w=rot(list(r["w"]), a_))
     for i in ctrls:
         mods = json.loads(json.dumps(r["mods"]))
         mods[i]["cv"][0] = 1 - mods[i]["cv"][0]
@@ -338,7 +372,8 @@ def bases(rng, tier):
     for g, cv in (("Hadamard", [1]), ("S", [1]), ("T", [0]), ("PhaseShift", [1]), ("RX", [0]), ("RX", [1]), ("RY", [1]), ("RZ", [1, 0]),
                   ("PauliZ", [0]), ("PauliX", [0, 1]), ("PauliX", [1, 1, 0]), ("SX", [1]), ("SWAP", [0]), ("ISWAP", [1, 1]),
                   ("IsingXX", [1]), ("Rot", [1]), ("Rot", [0, 1]), ("U2", [1]), ("CNOT", [0]), ("CZ", [1]), ("Identity", [1]),
-                  ("GlobalPhase", [1]), ("GlobalPhase", [1, 0])):
+                  ("GlobalPhase", [1]), ("GlobalPhase", [1, 0]),
+                  ("RX", [1, 0, 0]), ("S", [0, 1, 1]), ("PhaseShift", [0, 0, 1])):
         nt = 0 if g == "GlobalPhase" else ARITY[g]
         B.append(G(g, W(nt + len(cv)), ang(npar(g)), mods=[CT(cv)]))
     B.append(G("PauliRot", [1, 2, 3], ang(), [1, 2], mods=[CT([1])]))
@@ -441,11 +476,59 @@ def _shape(d):
     return f"{d['k']}({_shape(d['obs']) if d['obs'] else len(d['w'])})"
 
 
+def gen_histories(tier):
+    """EqHistoryGen.tla: every history of hash / copy / deepcopy / map_wires calls with the expected value of every object."""
+    r = lib.run_tlc("EqHistoryGen", lib.cfg(constants={"KMAX": 5, "MAXLEN": 2 if tier == "quick" else 3,
+                                                       "WITHDEEP": 0 if tier == "quick" else 1},
+                                            invariants=["TypeOK"], properties=["Immutable"], constraints=["Emit"]),
+                    lib.workdir("C04", "histgen"))
+    lib.require_ok(r, "EqHistoryGen")
+    byk = {}
+    for h in r.json_lines:
+        byk.setdefault(h["k"], []).append(h)
+    for k in byk:
+        byk[k].sort(key=lambda h: json.dumps(h["hist"]))
+    if sorted(byk) != [2, 3, 4, 5]:
+        raise lib.MachineryError(f"EqHistoryGen emitted histories for k = {sorted(byk)}")
+    return byk, r
+
+
+def _sig(h):
+    return ";".join(f"{e['op']}{e['i']}" + ("".join(map(str, e["p"])) if e["op"] == "map" else "") for e in h["hist"])
+
+
+def _family(a):
+    """implementation family of an object: which __hash__ / map_wires / copy code it runs (test allocation only)."""
+    c = type(a)
+    q = lambda nme: getattr(getattr(c, nme, None), "__qualname__", "-")      # noqa: E731
+    return (q("__hash__"), q("map_wires"), q("__copy__"), q("__deepcopy__"))
+
+
+def replay_history(h, da, lab):
+    """replay the calls of history h on a fresh object built from da -> the final store of real objects."""
+    objs = [build(da, lab)]
+    for e in h["hist"]:
+        o = objs[e["i"] - 1]
+        if e["op"] == "hash":
+            hash(o)
+        elif e["op"] == "copy":
+            objs.append(copy.copy(o))
+        elif e["op"] == "deepcopy":
+            objs.append(copy.deepcopy(o))
+        else:
+            objs.append(o.map_wires({lab[j]: lab[pj - 1] for j, pj in enumerate(e["p"]) if pj != j + 1}))
+    return objs
+
+
 def run(tier, seed):
     rng = random.Random(400 + seed)
     reps = 1 if tier == "quick" else 4
     cases, meta = [], []
     build_errors = {}
+    hists, hres = gen_histories(tier)
+    hcount = {k: 0 for k in hists}
+    fam_seen, hstat = {}, {"histories_replayed": 0, "hash_before_map": 0, "original_kept_after_map": 0, "families": 0,
+                           "replay_errors": {}}
     for rep in range(reps):
         for da in bases(rng, tier):
             lab = LABELSETS[(len(cases) + rep) % len(LABELSETS)]
@@ -469,6 +552,46 @@ def run(tier, seed):
                     continue
                 cases.append(_case(kind, da, db, a, b, ident, n))
                 meta.append({"kind": kind, "a": _short(da), "b": _short(db), "shape": _shape(da), "str": [str(a)[:120], str(b)[:120]]})
+            # histories: objects are values (EqHistoryGen.tla); every object of the final store against a fresh
+            # reconstruction from its expected data, and the original against every derived object
+            if n0 <= 4:
+                H = hists[n0 + 1]
+                fam = _family(a)
+                if fam_seen.setdefault(fam, _short(da)) == _short(da) and rep == 0:
+                    todo = H
+                else:
+                    todo = [H[hcount[n0 + 1] % len(H)]]
+                    hcount[n0 + 1] += 1
+                for h in todo:
+                    sig = _sig(h)
+                    try:
+                        objs = replay_history(h, da, lab)
+                    except Exception as e:  # noqa: BLE001 - counted; a public call failing on a valid object
+                        hstat["replay_errors"][type(e).__name__] = hstat["replay_errors"].get(type(e).__name__, 0) + 1
+                        continue
+                    hstat["histories_replayed"] += 1
+                    ops_ = [e["op"] for e in h["hist"]]
+                    hstat["hash_before_map"] += any(e["op"] == "hash" and any(f["op"] == "map" and f["i"] == e["i"]
+                                                                                for f in h["hist"][q + 1:])
+                                                    for q, e in enumerate(h["hist"]))
+                    hstat["original_kept_after_map"] += "map" in ops_
+                    dds = [relabel(da, f) for f in h["vals"]]
+                    # mechanism drift: an object whose own wire set is not the one the history model expects (map_wires
+                    # did not re-target it) says nothing about equality: counted, never a clause
+                    # (judged on the object's own ordered wire list against that of the fresh reconstruction)
+                    drift = [list(getattr(o, "wires", [])) != list(getattr(build(dj, lab), "wires", [])) for o, dj in zip(objs, dds)]
+                    for j, (o, dj) in enumerate(zip(objs, dds)):
+                        if drift[j] or drift[0]:
+                            hstat["map_wires_drift"] = hstat.get("map_wires_drift", 0) + 1
+                            hstat.setdefault("map_wires_drift_examples", {})[_shape(da)] = f"{sig}: {str(o)[:60]} wires {list(o.wires)}, expected {_short(dj)}"
+                            continue
+                        cases.append(_case(f"hist:{sig}:fresh[{j + 1}]", dj, dj, o, build(dj, lab), True, n0 + 1))
+                        meta.append({"kind": f"hist:{sig}:fresh[{j + 1}]", "a": _short(dj), "b": _short(dj), "shape": _shape(da),
+                                     "str": [str(o)[:120], "fresh " + _short(dj)]})
+                        if j >= 1:
+                            cases.append(_case(f"hist:{sig}:pair[{j + 1}]", dds[0], dj, objs[0], o, dds[0] == dj, n0 + 1))
+                            meta.append({"kind": f"hist:{sig}:pair[{j + 1}]", "a": _short(dds[0]), "b": _short(dj),
+                                         "shape": _shape(da), "str": [str(objs[0])[:120], str(o)[:120]]})
             # the triple a, rebuild(a), copy(a): six pairwise answers
             r_, c_ = build(da, lab), copy.copy(a)
             tri = [_ans(lambda: qp.equal(a, r_)), _ans(lambda: qp.equal(r_, c_)), _ans(lambda: qp.equal(a, c_)),
@@ -540,6 +663,8 @@ def run(tier, seed):
         c, m = cases[k], meta[k]
         hist[clause] = hist.get(clause, 0) + 1
         fam = c["kind"].split("[")[0]
+        if fam.startswith("hist:"):
+            fam = "hist:" + fam.rsplit(":", 1)[1]
         kinds[fam] = kinds.get(fam, 0) + 1
         if clause in ("overflow", "spec-inconsistent"):
             raise lib.MachineryError(f"TLC verdict {clause} on {m}")
@@ -593,7 +718,14 @@ def run(tier, seed):
                         "hash_equal": cases[k]["hab"], "tlc_denotations": verd[k][1], "verdict": verd[k][0]})
     if cnt["equal_true_nonidentical"] == 0 or cnt["different_map_unequal"] == 0 or cnt["same_map_but_unequal"] == 0:
         raise lib.MachineryError("vacuous run: no non-identical equal pair / no unequal pair with different maps / no conservative pair")
-    cov = {"states": dist, "transitions": gen, "traces_validated_against_impl": nreal, "evaluations": 5 * nreal,
+    hstat["families"] = len(fam_seen)
+    if hstat["hash_before_map"] == 0 or hstat["original_kept_after_map"] == 0 or not kinds.get("mut:control-cycle"):
+        raise lib.MachineryError(f"vacuous run: histories {hstat}, control-cycle pairs {kinds.get('mut:control-cycle')}")
+    if hstat["replay_errors"]:
+        raise lib.MachineryError(f"a history call raised on a valid object: {hstat['replay_errors']}")
+    dist += hres.distinct
+    gen += hres.generated
+    cov = {"states": dist, "transitions": gen, "histories": hstat, "implementation_families": {str(k): v for k, v in fam_seen.items()}, "traces_validated_against_impl": nreal, "evaluations": 5 * nreal,
            "distinct_nontrivial": len(nontriv),
            "rule": "non-trivial = distinct (mutation field, object shape) where the two objects are NOT built from identical data and "
                    "either qp.equal answered True (clause M decides) or TLC found different denotations",
